@@ -890,6 +890,9 @@ class TensorDictBase(MutableMapping):
             values_only=not return_indices,
             call_on_nested=False,
         )
+        if isinstance(result, (torch.Tensor, torch.return_types.min)):
+            # reduce=True: a tensor (or torch's own named tuple), nothing to split
+            return result
         if dim is not NO_DEFAULT and return_indices:
             # Split the tensordict
             from torch.return_types import min
@@ -1023,6 +1026,9 @@ class TensorDictBase(MutableMapping):
             values_only=not return_indices,
             call_on_nested=False,
         )
+        if isinstance(result, (torch.Tensor, torch.return_types.max)):
+            # reduce=True: a tensor (or torch's own named tuple), nothing to split
+            return result
         if dim is not NO_DEFAULT and return_indices:
             # Split the tensordict
             from torch.return_types import max
